@@ -11,7 +11,7 @@ use crate::exch::{ExchCfg, Gate, Menu, ServerMsg};
 use crate::exch_run::{replay_exchange, run_exchanges};
 use crate::gen::*;
 
-pub const RULE: &str = "requests {POST, PUT, PATCH, GET with send-body-despite-method} x {HTTP/1.0, 1.1} x {Content-Length: 3, chunked}, all with Expect: 100-continue, plus flows obtained by following a 302 / 307 redirect that inherit the Expect header and are converted with send-body-despite-method; server: bare interim 100 with reason {Continue, empty, none, 200-byte phrase} in HTTP/1.0 and 1.1 followed by the final response after the body, or a refusal = final head with status {101,102,103,199,200,204,205,300,302,403,417,500} bare / with 1 / with 2 fields (200 and 403 also with Connection: keep-alive, and with an empty-valued field first) arriving instead of the 100, or a silent server; per exchange the COMPLETE graph with 1-byte arrivals, try_read_100 at every window (while can_keep_await_100), give-up at EVERY prefix, then both later paths (body then response incl. late 100, or response directly) run to Cleanup. distinct = distinct (exchange, final observation) pairs (several per exchange are legitimate here: give-up before a refusal sends the body)";
+pub const RULE: &str = "requests {POST, PUT, PATCH, GET with send-body-despite-method} x {HTTP/1.0, 1.1} x {Content-Length: 3, chunked} (POST / PUT / GET-despite also with Content-Length: 0), all with Expect: 100-continue, plus flows obtained by following a 302 / 307 redirect that inherit the Expect header and are converted with send-body-despite-method; server: bare interim 100 with reason {Continue, empty, none, 200-byte phrase} in HTTP/1.0 and 1.1 followed by the final response after the body, or a refusal = final head with status {101,102,103,199,200,204,205,300,302,403,417,500} bare / with 1 / with 2 fields (200 and 403 also with Connection: keep-alive, and with an empty-valued field first) arriving instead of the 100, or a silent server; per exchange the COMPLETE graph with 1-byte arrivals, try_read_100 at every window (while can_keep_await_100), give-up at EVERY prefix, then both later paths (body then response incl. late 100, or response directly) run to Cleanup. distinct = distinct (exchange, final observation) pairs (several per exchange are legitimate here: give-up before a refusal sends the body)";
 
 fn long_phrase() -> String {
     let mut s = String::new();
@@ -33,6 +33,10 @@ pub fn build(tier: Tier) -> Vec<Arc<ExchCfg>> {
             }
         }
     }
+    // an announced body of length zero still goes through the handshake
+    reqs.push(req("POST", "1.1", ReqFraming::Length(0), 0, true, false, false));
+    reqs.push(req("PUT", "1.1", ReqFraming::Length(0), 0, true, false, false));
+    reqs.push(req("GET", "1.1", ReqFraming::Length(0), 0, true, false, true));
     for v in ["1.0", "1.1"] {
         reqs.push(req("GET", v, ReqFraming::Length(3), 3, true, false, true));
         reqs.push(req("GET", v, ReqFraming::ExplicitChunked, 3, true, false, true));
